@@ -2,7 +2,7 @@
    it carries the port's address and both values with the port's own argument
    type, so the set-messages an undo history builds from it ("<loc> ,<t> old",
    "<loc> ,<t> new") are accepted by the same port and store exactly the old
-   resp. the new value.  Also the two callbacks added in stage 5
+   resp. the new value.  Also the two callbacks added with C15 stage 3
    (rCOptionCb, rArrayTCbMember). *)
 From Coq Require Import List ZArith Bool Lia.
 From RtoscV Require Import Ports.SugarModel Ports.SugarProofs.
